@@ -330,7 +330,7 @@ const GAPS: &[&str] = &[" ", "", "  ", "\t"];
 const COMMENTS: &[&str] = &["# a comment", "#", "## two", "#$ echo no"];
 const CMDS: &[&str] = &["echo hello", "true", "false", "echo 'a b'  ", "cat <<EOF", "echo привет", "x=1; echo $x", "echo '```'"];
 const MORE: &[&str] = &["second line", "EOF", " && echo more", ""];
-const AFTER: &[&str] = &["hello", "out (glob)", "a* (glob+)", "b.*c (regex)", "", "  leading", "[x]", "[99999999999]", "$ not a command", "> not a continuation", "# not a comment", "привет", "(no-eol)", "``", "text \\", "- - -"];
+const AFTER: &[&str] = &["hello", "out (glob)", "a* (glob+)", "b.*c (regex)", "", "  leading", "[x]", "[99999999999]", "[-1]", "[+7]", "[ 1]", "$ not a command", "> not a continuation", "# not a comment", "привет", "(no-eol)", "``", "text \\", "- - -"];
 const BODY: &[&str] = &["print('x')", "$ fake command", "", "```scrut", "```", "# not a title", "---", "[1]", "`` two", "``` three"];
 
 fn gen_block(rng: &mut Rng, with_cmd: bool) -> Block {
